@@ -450,6 +450,29 @@ class _Canon(ast.NodeTransformer):
         self.depth = saved
         return n
 
+    def visit_Assign(self, n: ast.Assign) -> ast.AST:
+        # `a, b = x, y` with plain local names on the left and nothing on
+        # the right that the left rebinds is `a = x; b = y`
+        self.generic_visit(n)
+        if self.depth and len(n.targets) == 1 and isinstance(
+                n.targets[0], ast.Tuple) and isinstance(
+                    n.value, ast.Tuple) and len(n.targets[0].elts) == len(
+                        n.value.elts) and all(isinstance(
+                            t, ast.Name) for t in n.targets[0].elts):
+            left = {t.id for t in n.targets[0].elts}
+            right = {x.id for v in n.value.elts for x in ast.walk(v)
+                     if isinstance(x, ast.Name)}
+            plain = all(isinstance(v, (ast.Name, ast.Constant, ast.Attribute))
+                        for v in n.value.elts)
+            if plain and not (left & right) and len(left) == len(
+                    n.targets[0].elts):
+                return [
+                    ast.copy_location(ast.Assign(
+                        targets=[t], value=v, type_comment=None), n)
+                    for t, v in zip(n.targets[0].elts, n.value.elts)
+                ]
+        return n
+
     def visit_AnnAssign(self, n: ast.AnnAssign) -> ast.AST:
         self.generic_visit(n)
         if self.depth and isinstance(n.target, ast.Name):
